@@ -120,7 +120,7 @@ func c01(r *mon.Run) {
 	if r.Tier == "thorough" {
 		chainLens = append(chainLens, 511, 512, 513, 1000, 1023, 1024, 1025, 2000)
 	}
-	const chainModes = 6
+	const chainModes = 9
 	ws = append(ws, mon.Workload{Name: "long-chains", N: len(chainLens) * chainModes, Batch: 10,
 		Do: func(i int, t *mon.Tally) {
 			tree, doc := longChain(chainLens[i/chainModes], i%chainModes)
@@ -294,6 +294,40 @@ func c01(r *mon.Run) {
 			res, _, _ := cx.runBoth(tree, expr, doc)
 			c01Account(t, tree, expr, doc, res, i)
 		}})
+	// every sequence of 2..5 hash members over three key names (repeats in every order: a b a b, a a b, …): the
+	// last member of a name wins, every name that occurs is in the result
+	hk := []string{"a", "b", "c"}
+	nseq := 0
+	for l, p := 2, 9; l <= 5; l, p = l+1, p*3 {
+		nseq += p
+	}
+	ws = append(ws, mon.Workload{Name: "repeated-hash-keys", N: nseq * 2,
+		Do: func(i int, t *mon.Tally) {
+			k := i / 2
+			l, p := 2, 9
+			for k >= p {
+				k -= p
+				l++
+				p *= 3
+			}
+			keys := make([]gen.Key, l)
+			vals := make([]*gen.Expr, l)
+			for q := 0; q < l; q++ {
+				keys[q] = gen.Key{Name: hk[k%3], Quoted: (q+i)%4 == 3}
+				k /= 3
+				vals[q] = []*gen.Expr{gen.Field("p"), gen.Field("q"), gen.Chain(gen.Field("r"), gen.StIndex(0)), gen.Chain(gen.Field("r"), gen.StField("s")), gen.LitJSON("false")}[q]
+			}
+			tree := gen.MultiHash(keys, vals)
+			var doc interface{} = docs.J(`{"p":1,"q":"two","r":[3,{"s":4}]}`)
+			if i%2 == 1 {
+				tree = gen.Chain(gen.Field("rows"), gen.StListStar(), gen.StMultiHash(keys, vals))
+				doc = docs.J(`{"rows":[{"p":1,"q":"two","r":[3]},{"p":null,"q":[],"r":{"s":5}}]}`)
+			}
+			expr := gen.SpellTight(tree)
+			cx := &caseCtx{r, t, "repeated-hash-keys", i}
+			res, _, _ := cx.runBoth(tree, expr, doc)
+			c01Account(t, tree, expr, doc, res, i)
+		}})
 	nrand := tierPick(r, 40000, 1000000)
 	ws = append(ws, mon.Workload{Name: "core-random", N: nrand,
 		Do: func(i int, t *mon.Tally) {
@@ -329,6 +363,23 @@ func longChain(n, mode int) (*gen.Expr, interface{}) {
 	var steps []gen.Step
 	var doc interface{}
 	switch mode {
+	case 6, 7, 8: // nested through the LAST member / the right operand, n levels deep
+		if n > 400 {
+			n = 400
+		}
+		doc = map[string]interface{}{"a": float64(1), "b": "x"}
+		tree := gen.Field("b")
+		for k := 0; k < n; k++ {
+			switch mode {
+			case 6:
+				tree = gen.MultiList(gen.Field("a"), tree)
+			case 7:
+				tree = gen.MultiHash([]gen.Key{{Name: "x"}, {Name: "y"}}, []*gen.Expr{gen.Field("a"), tree})
+			default:
+				tree = gen.Pipe(gen.Current(), gen.Paren(tree))
+			}
+		}
+		return tree, doc
 	case 2:
 		doc = "bottom"
 		for d := n + 3; d >= 1; d-- {
